@@ -419,7 +419,9 @@ def _case(seed: int) -> Dict[str, Any]:
         kw.update(main_tid=40, other_tids_below=True)
     bwd_tid = (kw.get("main_tid", 1) + 1) if seed % 4 != 3 else 3
     per_rank = gen.gen_trace_set(seed, n_ranks=2 if two_ranks else 1, **kw)
-    for evs in per_rank.values():
+    for rk_, evs in per_rank.items():
+        if two_ranks and rk_ == 0 and seed % 2 == 0:
+            continue  # rank 0 has NO backward annotation while rank 1 (the one checked) has: each rank's autograd operators attach by that rank's own annotations
         if seed % 3 == 0 or two_ranks:  # main-thread backward annotations, some ending exactly where a backward-thread op ends
             steps = [e for e in evs if str(e.get("name", "")).startswith("ProfilerStep")]
             for s in steps:
